@@ -440,6 +440,12 @@ var c19SplitFiles []c19SplitFile
 
 func verifSplitMkdirAll(_ string, _ uint32) error { return nil }
 func verifSplitCreate(name string) (c19SplitFile, error) {
+	for _, old := range c19SplitFiles {
+		if old.name == name {
+			*old.data = nil // as os.Create: an existing file is emptied
+			return old, nil
+		}
+	}
 	f := c19SplitFile{name: name, data: new([]byte)}
 	c19SplitFiles = append(c19SplitFiles, f)
 	return f, nil
@@ -477,7 +483,9 @@ func VerifC19SplitFiles() {
 	// split
 	c19SplitFiles = nil
 	InitExpressionParser()
-	split := NewPrinter(f.EncoderFactory(), NewMultiPrinterWriter(vParse("$index"), f))
+	// the name expression gives every result a file of its own, or the same file to all of them
+	nameExp := []string{"$index", "\"out\"", ".a | length"}[verifChoice("name", 3)]
+	split := NewPrinter(f.EncoderFactory(), NewMultiPrinterWriter(vParse(nameExp), f))
 	for i := 0; i < n; i++ {
 		if err := split.PrintResults(mk(i).AsList()); err != nil {
 			verifCover("C19/split/error")
@@ -488,7 +496,9 @@ func VerifC19SplitFiles() {
 	for _, sf := range c19SplitFiles {
 		total += len(*sf.data)
 	}
-	verifAssert(len(c19SplitFiles) == n, "C19/split-file-count format="+format)
+	if nameExp == "$index" {
+		verifAssert(len(c19SplitFiles) == n, "C19/split-file-count format="+format)
+	}
 	want := len(sb.String())
 	verifObserve("bytes", int64(total))
 	verifAssert(total == want, "C19/exit-0-although-split-files-miss-bytes format="+format)
